@@ -43,7 +43,9 @@ class StarterStoreApplication:
     'two-level plan: application sequence -> process sequence', 'sequence 0 excluded: Starter.store_application (seq > 0)'.
     The job of the application lands under the key application.rules.start_sequence; its plan has exactly the positive
     sequence numbers of application.start_sequence (ApplicationStatus.update_sequences keys it by the processes' own
-    rules.start_sequence) with one start command per process of that number, in order."""
+    rules.start_sequence).  KEY LEVEL ONLY: the per-process content of the plan (one start command per process of that
+    number, in order) is not decided, and the breaking mutants tried get no verdict within 9 minutes
+    (contracts/wip_c09_stopper_store_application.txt): a proof on the unchanged tree, not yet a detector."""
     raises = ()
     returns = 'Optional[bool]'
     types = {'strategy': 'Optional[StartingStrategies]'}
@@ -329,3 +331,35 @@ class CommanderNextGuard:
     def post_effect_blocked_while_in_progress(self, old):
         blocked = len(old.self.current_jobs) > 0 and all_current_in_progress(self, old)
         return implies(blocked, no_effect('job_before', 'job_next', 'commander.next'))
+
+
+# ------------------------------------------------------------------------------------------ ApplicationStatus.update_sequences
+@contract('application:ApplicationStatus.update_sequences', props=['C03', 'C09'])
+class UpdateSequences:
+    """C03: 'a process is only requested to start once every process of the same application with a lower positive
+    start_sequence ...' / C09: 'processes are asked to stop in decreasing stop_sequence order ... (stop_sequence at both
+    levels ..., unmanaged applications)': the sequences Starter / Stopper.store_application copy are keyed by the
+    processes' OWN rules - per process of the application: it sits in start_sequence[process.rules.start_sequence] (managed
+    applications: 'consider only managed applications for start sequence') and in
+    stop_sequence[process.rules.stop_sequence] ('stop sequence is applicable to all applications').  Refutability: the
+    mutants of the start loop are refuted in seconds; those of the stop loop (second loop, after the havoc of the first) get
+    no verdict within 2 minutes."""
+    raises = ()
+
+    def pre_two_maps(self):
+        """__init__ creates two dict objects"""
+        return self.start_sequence is not self.stop_sequence
+
+    def loop0_inv(self, seen):
+        return True
+
+    def loop0_iter_keyed_by_own_start_sequence(self, process):
+        s = process.rules.start_sequence
+        return s in self.start_sequence and process in self.start_sequence[s]
+
+    def loop1_inv(self, seen):
+        return True
+
+    def loop1_iter_keyed_by_own_stop_sequence(self, process):
+        s = process.rules.stop_sequence
+        return s in self.stop_sequence and process in self.stop_sequence[s]
